@@ -113,7 +113,7 @@ func checkC13(P *Prog, r *Result) {
 			r.bad("C13/twin-language", name+"#deferred", P.pos(pf.Pos()), fmt.Sprintf("the Parse twin defers %d closure(s)/helper(s) that act on the node, the Validate twin %d", len(pd), len(vd)))
 		}
 	}
-	r.floor("C13/twin-language", 12)
+	r.floor("C13/twin-language", 9)
 	// the two context constructors (Parse-side and Validate-side) must clear the same catch flags
 	ca := P.newCatchAnalysis()
 	var ctorNames []string
@@ -190,7 +190,7 @@ func checkC13(P *Prog, r *Result) {
 			r.ok("C13/coercion-identity", key, P.pos(fn.Pos()), want)
 		}
 	}
-	r.floor("C13/coercion-identity", 5)
+	r.floor("C13/coercion-identity", 3)
 
 	// ---- twin-args ----
 	if len(R.Pipelines) == 2 {
@@ -265,7 +265,7 @@ func checkC13(P *Prog, r *Result) {
 			}
 		}
 	}
-	r.floor("C13/twin-args", 4)
+	r.floor("C13/twin-args", 2)
 
 	// ---- twin-callback-args ----
 	for _, k := range sortedKeys(R.Process) {
